@@ -151,7 +151,7 @@ int main(void)
         if (sscanf(line, "case %255s %ld", id, &tmo) < 1) continue;
         /* a change that makes an operation spin would otherwise cost the full budget on every case: after a few hangs
            the property is violated anyway, the remaining cases only get a short budget */
-        static int nhang; if (nhang >= 6 && tmo > 1500) tmo = 1500;
+        static int nhang; if (nhang >= 6 && tmo > 300) tmo = 300;
         int nl = 0;
         while (fgets(line, sizeof line, stdin)) {
             line[strcspn(line, "\n")] = 0;
